@@ -19,8 +19,9 @@ CLAIMS = {
              "run-time forms) is regenerated from the source on every run and C01_kind_faithful is re-proved over it by "
              "`decide`. Model and code are tied by tracing generated kernels (loops, branches, helpers, every selector form) "
              "with the real @tweezer / TraceInterpreter and comparing with model and reference.",
-        note=TB + "The flattening of generated kernels to their operation sequence is done by the harness generator "
-                  "(Python), not by a Lean evaluator; kirin's lowering/interpreter and Grid arithmetic are exercised, not verified.",
+        note=TB + "Each generated kernel is flattened to its operation sequence twice: by the harness generator (Python) and by the "
+                  "Lean reference evaluator run on the kernel's source (Model/Lang.lean); both are compared with the real trace. "
+                  "kirin's lowering/interpreter and Grid arithmetic are exercised, not verified.",
         technique="Lean 4 refinement proof (simulation) + regenerated dispatch tables + differential correspondence",
         ref="§3 C01"),
     "C02": dict(
